@@ -479,8 +479,11 @@ class LibMixin:
         if not self.ctx.branch(n > 0, "pop-nonempty"):
             self.raise_("IndexError", anchor)
         self.check_owned(lst, node, "pop")
+        esort = self.st.ghost.get("elem_sorts", {}).get(str(z3.simplify(lst)))
         if len(args) == 1:
             v = self.list_get(r, n - 1)
+            if esort is not None:
+                self.assume_shape(v, esort)
             self.st.llen = z3.Store(self.st.llen, r, n - 1)
             self.st.writes.append(("list", r, None))
             return v
@@ -490,6 +493,8 @@ class LibMixin:
         if not self.ctx.branch(z3.And(i >= 0, i < n), "pop-index-ok"):
             self.raise_("IndexError", anchor)
         v = self.list_get(r, z3.simplify(i))
+        if esort is not None:
+            self.assume_shape(v, esort)
         j = z3.Int("j!pop")
         arr = z3.Lambda([j], z3.If(j < i, z3.Select(self.lel(r), j), z3.Select(self.lel(r), j + 1)))
         self.st.lel = z3.Store(self.st.lel, r, arr)
